@@ -56,6 +56,17 @@ def tasks(tier):
                    deadline=4, durs=[0, 2], max_unknown=1, timeline="object", handler=None,
                    sleeper=None)
         out.append({"family": "hook-faults-retry", "cfg": cfg, "entry": e, "bound": 1, "weight": 4})
+    for hk, e in itertools.product(["partial", "object"], ["Policy.call", "Retry.execute",
+                                                           "AsyncPolicy.execute", "AsyncRetry.call"]):
+        cfg = dict(M=3, alphabet=["ok", "x:T", "r:T", "x:P"], abort=True, before_sleep="call",
+                   hook_kind=hk, max_unknown=None, timeline=True,
+                   breaker=brk_closed if e.startswith(("Policy", "AsyncPolicy")) else None)
+        out.append({"family": "hook-faults-kinds", "cfg": cfg, "entry": e, "bound": 1, "weight": 4})
+    for e in ["RetrySet.call", "AsyncRetrySet.execute", "RetryPolicySet.call",
+              "AsyncRetryPolicySet.execute"]:
+        cfg = dict(M=3, alphabet=["ok", "x:T", "r:T"], abort=True, before_sleep="policy",
+                   sleeper="policy", max_unknown=None, bs_async=e.startswith("Async"))
+        out.append({"family": "hook-faults-assigned", "cfg": cfg, "entry": e, "bound": 1, "weight": 4})
     return out
 
 
